@@ -392,6 +392,13 @@ func (in *instr) run() bool {
 				in.keepAlive["var _ = time.Sleep"] = true
 				in.st.sleeps++
 				in.dirty = true
+			case in.isRepo && in.rel == "output/shared/chunkidgen.go" && in.calleeIs(n, "time", "Now") && len(n.Args) == 0:
+				// chunk ids are wall-clock nanoseconds: two generators (old and new pipelines of one reload) never read the same
+				// value in reality, but would under a simulated clock that stands still while code runs
+				c.Replace(in.call("NowUnique"))
+				in.keepAlive["var _ = time.Now"] = true
+				in.st.calls++
+				in.dirty = true
 			case in.calleeIs(n, "reflect", "Select"):
 				c.Replace(in.call("ReflectSelect", in.site(n), n.Args[0]))
 				in.keepAlive["var _ = reflect.Select"] = true
